@@ -67,6 +67,11 @@ def _scalar(x):
         return x._st.d[x._ix[0]]
     if isinstance(x, ndarray) and x.size == 1:
         return x._st.d[x._ix[0]]
+    if isinstance(x, str):
+        # numpy converts strings when a float dtype is requested; number tokens read back as their symbols
+        from . import tokens
+        v = tokens.sym_float(x)
+        return v if isinstance(v, Sym) else Sym(v)
     raise Unsupported("cannot store %r in an array" % (type(x),))
 
 
@@ -504,7 +509,26 @@ def _broadcast_values(val, shape):
 
 # ------------------------------------------------------------------ construction
 
+def _to_float64(a):
+    """dtype=float64 was requested: integers that are not representable as a double are rounded, exactly as numpy does
+    (this is how an id that travels through a float array gets corrupted)."""
+    d = a._st.d
+    for i in a._ix:
+        x = d[i]
+        if x.d is None and x.n.is_const():
+            c = x.n.const_value()
+            if isinstance(c, int) and (c > 2 ** 53 or c < -2 ** 53):
+                d[i] = Sym(Fraction(float(c)))
+    return a
+
+
 def array(obj, dtype=None, copy=True, **kw):
+    if dtype in (float, float64):
+        return _to_float64(_array(obj))
+    return _array(obj)
+
+
+def _array(obj):
     if isinstance(obj, ndarray):
         return ndarray._fresh(obj.values(), obj.shape)
     if isinstance(obj, (Sym, int, float, Fraction)):
@@ -526,7 +550,7 @@ def asarray(obj, dtype=None, **kw):
         if type(obj) is ndarray:
             return obj
         return ndarray._make(obj._st, obj._ix, obj.shape)      # base-class view of the same storage
-    return array(obj)
+    return array(obj, dtype=dtype)
 
 
 def asanyarray(obj, dtype=None):
@@ -830,12 +854,51 @@ def array_equal(a, b):
     return r
 
 
-def allclose(a, b, rtol=1e-05, atol=1e-08):
-    a, b = asarray(a), asarray(b)
-    for x, y in zip(a.values(), b.values()):
+def allclose(a, b, rtol=1e-05, atol=1e-08, equal_nan=False):
+    a, b = asarray(a) if not isinstance(a, ndarray) else a, asarray(b) if not isinstance(b, ndarray) else b
+    if a.shape != b.shape:
+        _, av, bv = _broadcast(a, b)
+    else:
+        av, bv = a.values(), b.values()
+    for x, y in zip(av, bv):
         if not (_abs(x - y) <= atol + rtol * _abs(y)):
             return False
     return True
+
+
+def isclose(a, b, rtol=1e-05, atol=1e-08, equal_nan=False):
+    """|a - b| <= atol + rtol * |b|  (numpy's definition).  Scalars give a symbolic boolean; arrays are not needed as arrays
+    by the repository, so an array argument is reduced with all()."""
+    if isinstance(a, (ndarray, list, tuple)) or isinstance(b, (ndarray, list, tuple)):
+        return allclose(a, b, rtol, atol)
+    a, b = _scalar(a), _scalar(b)
+    return _abs(a - b) <= atol + rtol * _abs(b)
+
+
+def diagonal(a, offset=0):
+    a = asarray(a)
+    if a.ndim != 2:
+        raise Unsupported("diagonal of a %d-d array" % a.ndim)
+    n, m = a.shape
+    return ndarray._fresh([a[i, i + offset] for i in range(n) if 0 <= i + offset < m], (len([i for i in range(n) if 0 <= i + offset < m]),))
+
+
+def all(a, axis=None):      # noqa: A001
+    if isinstance(a, (bool, SymBool)):
+        return bool(a)
+    for x in asarray(a).values():
+        if not bool(x != 0):
+            return False
+    return True
+
+
+def any(a, axis=None):      # noqa: A001
+    if isinstance(a, (bool, SymBool)):
+        return bool(a)
+    for x in asarray(a).values():
+        if bool(x != 0):
+            return True
+    return False
 
 
 def isscalar(x):
